@@ -399,13 +399,16 @@ def r_vint_range(ctx):
     rep.analysed.append(body.key)
     for L in range(1, 9):
         k = 8 - L
-        eng = _engine(prog)
-        exits, frame = absrun.analyze(eng, body, None, _cells_setup(L, {0: (1 << k, (1 << (k + 1)) - 1)}))
-        r = _ok_int_range(exits, frame, True)
         want = (0, (1 << (7 * L)) - 1)
-        rep.instance("read_vint width %d" % L)
-        rep.oblige(r is not None and want[0] <= r[0] and r[1] <= want[1], "VINT-RANGE|read_vint|L=%d" % L, body.span,
-                   "read_vint width %d: value range %s not within %s" % (L, r, want))
+        # the slice ends with the vint, or goes on with arbitrary bytes behind it (a header is decoded out of a longer buffer)
+        for extra in (0, 2):
+            eng = _engine(prog)
+            exits, frame = absrun.analyze(eng, body, None, _cells_setup(L + extra, {0: (1 << k, (1 << (k + 1)) - 1)}))
+            r = _ok_int_range(exits, frame, True)
+            tail = "" if not extra else "|trailing"
+            rep.instance("read_vint width %d%s" % (L, " followed by other bytes" if extra else ""))
+            rep.oblige(r is not None and want[0] <= r[0] and r[1] <= want[1], "VINT-RANGE|read_vint|L=%d%s" % (L, tail), body.span,
+                       "read_vint width %d%s: value range %s not within %s" % (L, " with bytes behind the vint" if extra else "", r, want))
     body = find_one(prog, "tools::read_signed_vint")
     rep.analysed.append(body.key)
     for L in range(1, 9):
@@ -419,13 +422,15 @@ def r_vint_range(ctx):
                 cells = {0: fb}
             else:
                 cells = {0: (1, 1), 1: (0, 127) if sign == 0 else (128, 255)}
-            eng = _engine(prog)
-            exits, frame = absrun.analyze(eng, body, None, _cells_setup(L, cells))
-            r = _ok_int_range(exits, frame, True)
             want = (0, half - 1) if sign == 0 else (-half, -1)
-            rep.instance("read_signed_vint width %d sign %d" % (L, sign))
-            rep.oblige(r is not None and want[0] <= r[0] and r[1] <= want[1], "VINT-RANGE|read_signed_vint|L=%d|sign=%d" % (L, sign), body.span,
-                       "read_signed_vint width %d, sign bit %d: value range %s not within %s" % (L, sign, r, want))
+            for extra in (0, 2):
+                eng = _engine(prog)
+                exits, frame = absrun.analyze(eng, body, None, _cells_setup(L + extra, cells))
+                r = _ok_int_range(exits, frame, True)
+                tail = "" if not extra else "|trailing"
+                rep.instance("read_signed_vint width %d sign %d%s" % (L, sign, " followed by other bytes" if extra else ""))
+                rep.oblige(r is not None and want[0] <= r[0] and r[1] <= want[1], "VINT-RANGE|read_signed_vint|L=%d|sign=%d%s" % (L, sign, tail), body.span,
+                           "read_signed_vint width %d, sign bit %d%s: value range %s not within %s" % (L, sign, " with bytes behind the vint" if extra else "", r, want))
     rep.require_floor(24, "width/sign classes")
     return rep
 
